@@ -2,6 +2,7 @@ package main
 
 import (
 	"fmt"
+	"go/token"
 	"go/types"
 	"sort"
 	"strings"
@@ -184,6 +185,8 @@ func checkC16(p *Program, r *Report) {
 		}
 		r.Check(why == "", "generic array stride (encode.TypeEncoder.Size)", pos, fmt.Sprintf("%d store(s); sources %v", sites, srcs), why)
 	}
+
+	checkEncodeAll(p, r)
 
 	// ---- wire
 	r.Rule("C16.wire", "types", "all array types serialise through the embedded Array32", 7)
@@ -438,4 +441,165 @@ func checkSuccessImpliesValidated(p *Program, r *Report, f *ssa.Function, sentin
 		bad = append(bad, "a path under ["+abbreviate(fp.pcKey())+"] returns "+abbreviate(fp.resKey())+" without having passed "+okc+": input the validation refuses is accepted there")
 	}
 	r.Check(len(bad) == 0, construct, p.Pos(f.Pos()), "every non-panicking path carries "+okc+" or returns the sentinel under "+fail, strings.Join(dedupStrings(sortStr(bad)), "; "))
+}
+
+// checkEncodeAll (C16.encode-all): the packed element buffer holds the
+// encoding of every element, in order. In the function that fills Base.Elts
+// with the encoder (InitElts today) every Encode call on the encoder sits in a
+// loop whose index runs from 0 by 1 while below the number of elements (the
+// Len() of the elements value), its argument is the element at that index, its
+// result is appended to the buffer unconditionally, and the function starts no
+// goroutine — chunked or concurrent fills that round the chunk size down leave
+// the tail of the buffer zero.
+func checkEncodeAll(p *Program, r *Report) {
+	r.Rule("C16.encode-all", "SSA", "every element is encoded and appended, in order", 1)
+	var F *ssa.Function
+	var encPrm *ssa.Parameter
+	for _, f := range p.FuncsOf(arrayPath) {
+		if f.Synthetic != "" || f.Parent() != nil {
+			continue
+		}
+		var ep *ssa.Parameter
+		for _, prm := range f.Params {
+			if isNamed(prm.Type(), encPath, "Encoder") {
+				ep = prm
+			}
+		}
+		if ep == nil {
+			continue
+		}
+		storesElts := false
+		instrsOf(f, func(_ *ssa.BasicBlock, in ssa.Instruction) {
+			if st, ok := in.(*ssa.Store); ok {
+				if _, fv, fa := fieldOfAddr(st.Addr); fa != nil && fv.Name() == "Elts" {
+					storesElts = true
+				}
+			}
+		})
+		if storesElts {
+			F, encPrm = f, ep
+		}
+	}
+	if F == nil {
+		r.Unk("element encoding loop", "", "no function of package array fills Elts with an encode.Encoder (anchor not found)")
+		return
+	}
+	r.Func(shortFn(F))
+	var bad []string
+	nEnc := 0
+	hasGo := false
+	// Encode calls anywhere under F (closures included)
+	fs := append([]*ssa.Function{F}, F.AnonFuncs...)
+	for _, g := range fs {
+		instrsOf(g, func(b *ssa.BasicBlock, in ssa.Instruction) {
+			if _, ok := in.(*ssa.Go); ok {
+				hasGo = true
+			}
+			ec, ok := in.(*ssa.Call)
+			if !ok || !ec.Call.IsInvoke() || ec.Call.Method.Name() != "Encode" {
+				return
+			}
+			nEnc++
+			if g != F || ec.Call.Value != ssa.Value(encPrm) {
+				bad = append(bad, "Encode is called at "+p.Pos(ec.Pos())+" outside the element loop of "+shortFn(F)+" (in a closure or on another encoder)")
+				return
+			}
+			header := loopHeaderOf(b)
+			if header == nil {
+				bad = append(bad, "Encode at "+p.Pos(ec.Pos())+" is not in a loop")
+				return
+			}
+			var idx *ssa.Phi
+			for _, hin := range header.Instrs {
+				if ph, ok := hin.(*ssa.Phi); ok && isIntType(ph.Type()) {
+					okInit, okStep := false, true
+					for i, ed := range ph.Edges {
+						if header.Dominates(header.Preds[i]) {
+							bo, ok := stripConv(ed).(*ssa.BinOp)
+							k, isK := int64(0), false
+							if ok {
+								k, isK = constInt(bo.Y)
+							}
+							if !ok || bo.Op != token.ADD || stripConv(bo.X) != ssa.Value(ph) || !isK || k != 1 {
+								okStep = false
+							}
+						} else if c, ok := constInt(ed); ok && c == 0 {
+							okInit = true
+						}
+					}
+					if okInit && okStep {
+						idx = ph
+					}
+				}
+			}
+			if idx == nil {
+				bad = append(bad, "the loop around Encode at "+p.Pos(ec.Pos())+" does not run from 0 in steps of 1")
+				return
+			}
+			// bound: idx < Len()
+			okBound := false
+			if iff, ok := lastInstr(header).(*ssa.If); ok {
+				if bo, ok := iff.Cond.(*ssa.BinOp); ok && bo.Op == token.LSS && stripConv(bo.X) == ssa.Value(idx) {
+					if c, ok := bo.Y.(*ssa.Call); ok && calleeIs(c, "(reflect.Value).Len") {
+						okBound = true
+					}
+				}
+			}
+			if !okBound {
+				bad = append(bad, "the loop around Encode at "+p.Pos(ec.Pos())+" is not bounded by the number of elements (Len of the elements value)")
+			}
+			// argument: element at idx
+			dep := false
+			var walk func(v ssa.Value, d int)
+			walk = func(v ssa.Value, d int) {
+				if v == ssa.Value(idx) {
+					dep = true
+				}
+				if d > 6 || dep {
+					return
+				}
+				if _, isPhi := v.(*ssa.Phi); isPhi {
+					return
+				}
+				if in2, ok := v.(ssa.Instruction); ok {
+					var ops []*ssa.Value
+					for _, op := range in2.Operands(ops) {
+						if op != nil && *op != nil {
+							walk(*op, d+1)
+						}
+					}
+				}
+			}
+			if len(ec.Call.Args) == 1 {
+				walk(ec.Call.Args[0], 0)
+			}
+			if !dep {
+				bad = append(bad, "the value encoded at "+p.Pos(ec.Pos())+" is not the element at the loop index")
+			}
+			// result appended unconditionally
+			appended := false
+			for _, ref := range *ec.Referrers() {
+				if ap, ok := ref.(*ssa.Call); ok {
+					if bi, ok := ap.Call.Value.(*ssa.Builtin); ok && bi.Name() == "append" && ap.Block() == b {
+						appended = true
+					}
+				}
+			}
+			for i := range header.Preds {
+				if header.Dominates(header.Preds[i]) && !b.Dominates(header.Preds[i]) {
+					appended = false
+				}
+			}
+			if !appended {
+				bad = append(bad, "the encoding produced at "+p.Pos(ec.Pos())+" is not appended to the buffer on every iteration")
+			}
+		})
+	}
+	if hasGo {
+		bad = append(bad, shortFn(F)+" starts goroutines: the buffer is filled in chunks whose boundaries must add up exactly")
+	}
+	if nEnc == 0 {
+		bad = append(bad, "no Encode call found")
+	}
+	r.Check(len(bad) == 0, "elements encoded by "+shortFn(F), p.Pos(F.Pos()), fmt.Sprintf("%d Encode call(s): loop 0..Len()-1 step 1, element at the index, appended unconditionally, no goroutine", nEnc), strings.Join(dedupStrings(sortStr(bad)), "; "))
 }
